@@ -10,6 +10,22 @@ def showRats (rs : List Rat) : String := " ".intercalate (rs.map ratToString)
 def showIds (os : List PObj) : String :=
   if os.isEmpty then "-" else " ".intercalate (os.map (fun o => toString o.id))
 
+def showInts (xs : List Int) : String :=
+  if xs.isEmpty then "-" else " ".intercalate (xs.map toString)
+
+def pairs : List Rat → Option (List Point)
+  | [] => some []
+  | x :: y :: rest => (pairs rest).map (fun t => (x, y) :: t)
+  | _ => none
+
+def pobjs : List String → Option (List PObj)
+  | [] => some []
+  | id :: x0 :: y0 :: x1 :: y1 :: rest =>
+    match id.toNat?, rats [x0, y0, x1, y1], pobjs rest with
+    | some id, some [x0, y0, x1, y1], some t => some (⟨id, x0, y0, x1, y1⟩ :: t)
+    | _, _, _ => none
+  | _ => none
+
 def step (st : Option Plane.Plane) (line : String) : Option Plane.Plane × String :=
   match words line with
   | "mult" :: rest =>
@@ -49,6 +65,41 @@ def step (st : Option Plane.Plane) (line : String) : Option Plane.Plane × Strin
       let r := drange v0 v1 d
       (st, if r.isEmpty then "-" else " ".intercalate (r.map toString))
     | _, _, _ => (st, "bad-op")
+  | "getbound" :: rest =>
+    match (rats rest).bind pairs with
+    | some pts =>
+      let (x0, y0, x1, y1) := get_bound pts
+      (st, showRats [x0, y0, x1, y1])
+    | none => (st, "bad-op")
+  | "uniq" :: rest =>
+    match rest.mapM String.toInt? with
+    | some xs => (st, showInts (uniq xs))
+    | none => (st, "bad-op")
+  | "fsplit" :: "lt" :: t :: rest =>
+    match t.toInt?, rest.mapM String.toInt? with
+    | some t, some xs =>
+      let (a, b) := fsplit (fun x => decide (x < t)) xs
+      (st, showInts a ++ " | " ++ showInts b)
+    | _, _ => (st, "bad-op")
+  | "fsplit" :: "mod" :: m :: r :: rest =>
+    match m.toInt?, r.toInt?, rest.mapM String.toInt? with
+    | some m, some r, some xs =>
+      let (a, b) := fsplit (fun x => decide (pyMod x m = r)) xs
+      (st, showInts a ++ " | " ++ showInts b)
+    | _, _, _ => (st, "bad-op")
+  | "plane.extend" :: rest =>
+    match st, pobjs rest with
+    | some p, some os => (some (Plane.extend p os), "ok")
+    | _, _ => (st, "bad-op")
+  | ["plane.contains", id, x0, y0, x1, y1] =>
+    match st, id.toNat?, rats [x0,y0,x1,y1] with
+    | some p, some id, some [x0,y0,x1,y1] =>
+      (st, if Plane.contains p ⟨id,x0,y0,x1,y1⟩ then "true" else "false")
+    | _, _, _ => (st, "bad-op")
+  | ["plane.len"] =>
+    match st with
+    | some p => (st, toString (Plane.len p))
+    | none => (st, "bad-op")
   | ["plane.new", x0, y0, x1, y1, gs] =>
     match rats [x0,y0,x1,y1], gs.toInt? with
     | some [x0,y0,x1,y1], some gs =>
@@ -56,7 +107,7 @@ def step (st : Option Plane.Plane) (line : String) : Option Plane.Plane × Strin
     | _, _ => (st, "bad-op")
   | ["plane.add", id, x0, y0, x1, y1] =>
     match st, id.toNat?, rats [x0,y0,x1,y1] with
-    | some p, some id, some [x0,y0,x1,y1] => (some (Plane.add p ⟨id,x0,y0,x1,y1⟩), "ok")
+    | some p, some id, some [x0,y0,x1,y1] => (some (Plane.addPy p ⟨id,x0,y0,x1,y1⟩), "ok")
     | _, _, _ => (st, "bad-op")
   | ["plane.remove", id, x0, y0, x1, y1] =>
     match st, id.toNat?, rats [x0,y0,x1,y1] with
